@@ -104,17 +104,27 @@ Definition record_and_check_l (c : cfg) (st : lstate) (k t : Z) : lstate * bool 
                           else (acc2, pr1) in
       let '(d2, pr3) := should_deny_l pr2 k t in
       ({| l_acc := acc3; l_pr := pr3; l_acap := l_acap st; l_pcap := l_pcap st |}, d2).
-(* initDict(oldRule) on reload: the dictionaries are kept, capacities only ever grow *)
-Definition reload_l (st : lstate) (newcap : Z) : lstate :=
+(* Reload: a new rule is built from the new configuration (newPrisonRule) and takes over the dictionaries of the old
+   rule of the same name (initDict(oldRule)): EnlargeCapacity(accessDictSize) on the access dictionary and
+   EnlargeCapacity(prisonDictSize) on the prison dictionary - a capacity is never reduced.
+   The payload of a reload op is one number t:  t mod 10^6 = accessDictSize + 1000 * prisonDictSize;
+   t / 10^6 = 0: period/stay/threshold unchanged, else t / 10^6 - 1 = period + 100 * stay + 10000 * (threshold + 1). *)
+Definition rl_acap (t : Z) : Z := (t mod 1000000) mod 1000.
+Definition rl_pcap (t : Z) : Z := (t mod 1000000) / 1000.
+Definition rl_cfg (c : cfg) (t : Z) : cfg :=
+  let hi := t / 1000000 in
+  if hi <=? 0 then c
+  else let h := hi - 1 in {| c_period := h mod 100; c_stay := (h / 100) mod 100; c_threshold := h / 10000 - 1 |}.
+Definition reload_l (st : lstate) (t : Z) : lstate :=
   {| l_acc := l_acc st; l_pr := l_pr st;
-     l_acap := if newcap <? l_acap st then l_acap st else newcap;
-     l_pcap := if newcap <? l_pcap st then l_pcap st else newcap |}.
-(* ops: (key, time) request; key -1: unsignable request; key -2: reload with new dictionary sizes (second field) *)
+     l_acap := if rl_acap t <? l_acap st then l_acap st else rl_acap t;
+     l_pcap := if rl_pcap t <? l_pcap st then l_pcap st else rl_pcap t |}.
+(* ops: (key, time) request; key -1: unsignable request; key -2: reload (second field = payload) *)
 Fixpoint run_lru (c : cfg) (st : lstate) (ops : list (Z * Z)) : list bool :=
   match ops with
   | [] => []
   | (k, t) :: r =>
-    if k =? -2 then false :: run_lru c (reload_l st t) r
+    if k =? -2 then false :: run_lru (rl_cfg c t) (reload_l st t) r
     else let '(st', d) := record_and_check_l c st k t in d :: run_lru c st' r
   end.
 
